@@ -171,7 +171,7 @@ def _run(case):
             if case["imports_file"]:
                 imp = os.path.join(d, "imports_src.py")
                 with open(imp, "wt") as f:
-                    f.write("from typing import Optional, List\nimport os\nfrom collections import OrderedDict\n")
+                    f.write("from __future__ import annotations\n\nfrom typing import Optional, List\nimport os\nfrom collections import OrderedDict\n")
                 argv += ["--imports-from-file", imp]
         existing = case.get("existing")
         if existing:
